@@ -24,6 +24,10 @@ def check_program(ctx, prog, stats, samples):
         stats["impl_hist"][r["impl"][0]] += 1
         if r["impl"] != r["model"]:
             ctx.violation(f"call outcome: implementation {r['impl']} != model {r['model']}", case, kind="correspondence")
+            # the tie is broken for this call: ask the rule directly whether the implementation's outcome is also wrong
+            # (no attribution to KF-01 here: that needs the model's agreement)
+            if r["impl"] != r["spec_py"] and not (r["spec_py"] == ["ambig"] and r["impl"][0] == "run" and not r["chain"]):
+                ctx.violation(f"implementation {r['impl']} deviates from the documented rule {r['spec_py']}", case)
             continue
         if "resolve" in r and r["resolve"] != r["impl"]:
             ctx.violation(f"resolve() names {r['resolve']} but the call gives {r['impl']}", case)
